@@ -27,7 +27,10 @@ open Zvbi.Ttx Zvbi.Ttx.Spec Zvbi.Hamm Zvbi.Gen
 /-- An accepted header (page number decodes, subcode / control bits not refused) for magazine slot
     `mag0`: afterwards the slot expects X/26 designation 0 next (`num_triplets = 0`), no Level 1 row
     counts as received, and the page under assembly either continues the cached copy `q` of that
-    very page number - `enh` and the mask of received X/26 designations are `q`'s - or was built from
+    very page number - `enh` and the mask of received X/26 designations are `q`'s (source shape with
+    fixes/C03-enh-zero-filler.diff, flag `ttxFixEnhFiller` regenerated from packet.c: if `q` was stored without
+    X/26 data, so that the cache handed it back without its array, every entry is the unused value instead of the
+    zero triplets of the unrepaired code - finding C03-enh-zero-filler, `C03Tx.live_triplets_were_transmitted_counterexample`) - or was built from
     scratch: then no designation is marked as received and, if it is a Level one page (the only kind
     handed to `lop_parity_check`), EVERY entry of `enh` is the unused value 0xFF.  So whatever
     `enh` holds until an X/26 packet of this transmission writes it (`C03.x26_continuity`: entries
@@ -37,7 +40,8 @@ theorem enh_fresh_after_header (s : St) (mag0 mag8 : Nat) (v : View) (page : Nat
     let rp := (processHeader s mag0 mag8 v).1.st.rp mag0
     rp.numTriplets = 0 ∧ rp.lopPackets = 0 ∧
     ((∃ q, q ∈ (terminatePage s mag0 (mag8 * 256 + page) page).1.net.cache ∧ q.pgno = mag8 * 256 + page ∧
-           rp.page.enh = q.enh ∧ rp.page.x26 = q.x26) ∨
+           (rp.page.enh = q.enh ∨ (ttxFixEnhFiller = true ∧ q.x26 = 0 ∧ rp.page.enh = enhUnused)) ∧
+           rp.page.x26 = q.x26) ∨
      (rp.page.x26 = 0 ∧ (rp.page.function = FN_LOP → rp.page.enh = enhUnused))) := by
   have hlen : (terminatePage s mag0 (mag8 * 256 + page) page).1.raw.length = s.raw.length :=
     (terminatePage_frame s mag0 (mag8 * 256 + page) page).1.len
